@@ -151,7 +151,8 @@ SEEDS = [
     ("M-SEARCH * HTTP/1.1", [["HOST", "239.255.255.250:1900"], ["MAN", '"ssdp:discover"'], ["MX", "3"], ["ST", "upnp:rootdevice"]]),
     ("M-SEARCH * HTTP/1.1", [["HOST", "239.255.255.250:1900"], ["MAN", '"ssdp:discover"'], ["ST", DEV_TYPE]]),
 ]
-MX_VALUES = ["-1", "0", "1", "5", "10", "abc", "1.5", " 3 ", "", "+2", "-0", "1_0", "99999999999999999999", "0x2"]
+MX_VALUES = ["-1", "0", "1", "5", "10", "abc", "1.5", " 3 ", "", "+2", "-0", "1_0", "99999999999999999999", "0x2",
+             "0.3", "0.25", "1e-3", ".2", "nan", "inf", "4.999", "1e400"]
 ST_VALUES = ["ssdp:all", "SSDP:ALL", "upnp:rootdevice", DEV_UDN, DEV_UDN.lower(), DEV_TYPE, DEV_TYPE[:-1] + "1", DEV_TYPE[:-1] + "0",
              DEV_TYPE[:-1] + "3", DEV_TYPE.upper(), SVC_TYPES[0], SVC_TYPES[0][:-1] + "2", "urn:foreign:service:X:1", "", "uuid:other", "a:b"]
 CC_VALUES = ["max-age=" + "9" * 25, "max-age=99999999999", "max-age=-5", "max-age", "max-age=١٢", "max-age = 7", "MAX-AGE=0",
